@@ -75,6 +75,12 @@ func C04(c *core.Ctx) {
 	// "... re-issued only after its previous session has been removed completely": Close() withdraws the rules through
 	// the Sess.Remove<K> methods, which therefore must reach the data plane for every recorded id (C01 R9)
 	shareFrom(c, "C01", "R6", func(o *core.Obligation) bool { return o.Rule == "R9" }, 5, "removal methods that always reach the data plane")
+	// ... and Close() walks every one of the five id sets (C01 R5): a set that is skipped leaves its rules installed
+	// under a SEID that is about to be re-issued
+	if calls, _ := driverCalls(c); calls != nil {
+		sets := idSets(c, calls)
+		renameRule(c, "R5", "R6", func() { c01Close(c, sets) })
+	}
 }
 
 // ordinal numbers the sites on field f within fn in source order (stable key without line numbers).
